@@ -12,6 +12,8 @@ INVARIANT ArrayPlacement
 INVARIANT IncRange
 INVARIANT SupportGrouping
 INVARIANT SameSupportNoIncongruence
+INVARIANT BelowThresholdChainsIgnored
+INVARIANT D8ReadingSameAgreement
 PROPERTY ShuffleKeepsSummary
 INVARIANT Dump
 CHECK_DEADLOCK FALSE
